@@ -2,3 +2,4 @@
 pub mod rng;
 pub mod val;
 pub mod out;
+pub mod sql;
